@@ -13,16 +13,22 @@ Require Import TT.Spec.C05Spec TT.Spec.C05Known.
 Require Import TT.Model.C05Parse TT.Proofs.C05ParseProofs.
 Require Import TT.Proofs.TypeParseProofs TT.Proofs.RenderProofs TT.Proofs.C05Proofs TT.Proofs.C05Sweep TT.Proofs.C05Witness TT.Proofs.C05Examples.
 Require Import TT.Proofs.C05PrefixProofs TT.Proofs.C05OracleProofs TT.Model.C05TypeStr TT.Proofs.C05TypeStrProofs TT.Proofs.C05Utf8.
+Require TT.Model.C10Zod TT.Spec.C10Check.
+Require Import TT.Proofs.C05ZodProofs.
 Import ListNotations.
 Local Open Scope string_scope.
 
-(* The statement for every site and both modes. It is NOT asserted as a whole: without the class
-   premise the faithful model refutes it (lemmas *_refuted below); with the premise it is PROVED for
-   every site whose text is a TypeScript type - parameter, field, channel in plain mode and channel,
-   return, event in both modes, 8 of the 10 site x mode pairs (C05_sound_ts_sites) - and for the two
-   remaining pairs (Zod-mode parameter and field SCHEMAS, read back through Spec/C05Spec.zshape) only
-   on bounded sweeps of the model (C05_sweep_sound_depth1_partial; depth 2 in Proofs/C05Sweep2.v).
-   The remainder is exactly C05_sound_zod_schema_statement. *)
+(* The statement for every site and both modes. Without the class premise the faithful model refutes
+   it (lemmas *_refuted below). With the premise it is PROVED
+   - for every site whose text is a TypeScript type (8 of the 10 site x mode pairs): C05_sound_ts_sites;
+   - for the two Zod-mode schema sites (parameter, field) and hence for ALL sites: C05_sound_all_sites,
+     under (a) a nesting premise tdepth (sem t) < 60 (the expression parser of the specification,
+     Spec/TsModule.pexpr, has the fixed nesting budget 64) and (b) the explicit link hypothesis
+     zod_parse_link: the builder's text parses to the builder's tree,
+       parse_ex (build_schema m ts) = Some (zex_of m ts false)
+     - the round trip the C10 development is proving over the shared lexer layer. Everything else,
+     in particular the reading of that tree (C05_zod_tree_denotes), is proved here.
+   The unconditional statement itself stays a Definition (not asserted). *)
 Definition C05_sound_full_statement : Prop :=
   forall (s : site) (md : mode) (t : rty),
     dom_b t = true -> kf_C05 s md [] t = false ->
@@ -101,6 +107,33 @@ Proof. intros ts Hok Hn Hp. unfold add_types_prefix. apply atp_render; auto.
 Theorem C05_oracle_exact : forall s md m t text,
   c05_ok s md m t text = true <-> observe (site_is_type s md) text = Some (expected s m t).
 Proof. exact c05_oracle_exact. Qed.
+
+(* Zod-mode parameter and field schemas, on the expression tree of the schema: for every structure
+   without Option / set / Result (the pinned deviations C05-6/7/8), with primitive and declared names
+   as the domain provides them, the type z.infer gives the builder's tree is the README shape (with the
+   table applied) - by structural induction, any depth below the fuel. *)
+Theorem C05_zod_tree_denotes : forall m t,
+  ts_ok (msubst m t) -> names_ok (msubst m t) -> zod_clean (msubst m t) = true ->
+  forall key f, tdepth t < f -> zshape f (C10Zod.zex_of m t key) = Some (shape (msubst m t)).
+Proof. exact zshape_zex. Qed.
+
+(* the two models of the schema builder (this development's and C10's) are the same function *)
+Theorem C05_zod_builders_agree : forall m t k, C10Zod.zbuild m t k = zbuild m t k.
+Proof. exact zbuild_eq. Qed.
+
+(* The Zod schema sites and then ALL sites, both modes: the full statement under the parse link and
+   the nesting premise. *)
+Theorem C05_sound_zod_schema_under_link : zod_parse_link -> forall (s : site) (md : mode) (t : rty),
+  dom_b t = true -> tdepth (sem t) < 60 -> schema_site s md = true -> kf_C05 s md [] t = false ->
+  exists text, emit_type s md [] t = Some text /\
+               observe (site_is_type s md) text = Some (expected s [] t).
+Proof. intros Hl s md t Hd. apply sound_zod_schema; try constructor; auto. Qed.
+
+Theorem C05_sound_all_sites : zod_parse_link -> forall (s : site) (md : mode) (t : rty),
+  dom_b t = true -> tdepth (sem t) < 60 -> kf_C05 s md [] t = false ->
+  exists text, emit_type s md [] t = Some text /\
+               observe (site_is_type s md) text = Some (expected s [] t).
+Proof. intros Hl s md t Hd. apply sound_all_sites; try constructor; auto. Qed.
 
 (* The three type_to_string variants (command parameters / returns, struct fields, channel messages;
    Model/C05TypeStr.v models them on the larger syn syntax, where they differ on arrays, slices and
@@ -196,6 +229,15 @@ Theorem C05_prefix_composite_repaired : repaired SReturn MNone w_pfx_composite "
 Proof. exact prefix_composite_repaired. Qed.
 
 (* ---- the premises are satisfiable on non-trivial inputs ---- *)
+(* HashMap<String, Vec<(User, i32)>> as a Zod-mode field: clean, depth 4, and the reading of its tree *)
+Definition ex_zod : rty :=
+  RPath (L "HashMap") [RPath (L "String") []; RPath (L "Vec") [RTuple [RPath (L "User") []; RPath (L "i32") []]]].
+Example C05_zod_premises :
+  dom_b ex_zod = true /\ tdepth (sem ex_zod) = 4 /\ schema_site SField MZod = true /\ kf_C05 SField MZod [] ex_zod = false /\
+  zod_clean (sem ex_zod) = true /\
+  emit_type SField MZod [] ex_zod = Some (L "z.record(z.string(), z.array(z.tuple([UserSchema, z.coerce.number()])))") /\
+  C10Check.parse_ex (C10Zod.build_schema [] (sem ex_zod)) = Some (C10Zod.zex_of [] (sem ex_zod) false).
+Proof. vm_compute. repeat split; reflexivity. Qed.
 Definition ex_utf8 : rty := RPath (L "Result") [RPath (L "Ärger") []; RPath (L "String") []].
 Example C05_utf8_example :
   forallb high_or_ident (L "Ärger") = true /\ List.length (L "Ärger") = 6 /\
@@ -244,6 +286,10 @@ Print Assumptions C05_sound_prefix.
 Print Assumptions C05_sound_ts_sites.
 Print Assumptions C05_prefix_is_qualified_render.
 Print Assumptions C05_oracle_exact.
+Print Assumptions C05_zod_tree_denotes.
+Print Assumptions C05_zod_builders_agree.
+Print Assumptions C05_sound_zod_schema_under_link.
+Print Assumptions C05_sound_all_sites.
 Print Assumptions C05_printers_agree.
 Print Assumptions C05_compositional_vec.
 Print Assumptions C05_compositional_hashset.
